@@ -133,10 +133,23 @@ type c20Render struct {
 	noise      bool
 }
 
+// c20Applied records, per mutation, the path of the node it was applied to (node indices are
+// re-enumerated after every mutation, paths stay meaningful)
+var c20Applied []any
+
+func c20PathString(p []any) string {
+	parts := make([]string, len(p))
+	for i, s := range p {
+		parts[i] = fmt.Sprint(s)
+	}
+	return strings.Join(parts, "/")
+}
+
 func c20Apply(root any, m c20Mut, idx int, dir string, r *c20Render) any {
 	var nodes []c20Node
 	c20Enumerate(root, nil, &nodes)
 	n := nodes[(m.Node-1)%len(nodes)]
+	c20Applied = append(c20Applied, map[string]any{"op": m.Op, "path": c20PathString(n.path)})
 	ref := func(s string) any { return map[string]any{"$ref": s} }
 	underSchemas := false
 	for _, s := range n.path {
@@ -295,9 +308,11 @@ func c20Run(c *Case) []any {
 		panic(err)
 	}
 	r := &c20Render{truncateAt: -1}
+	c20Applied = nil
 	for _, m := range tc.Muts {
 		root = c20Apply(root, m, c.Idx, dir, r)
 	}
+	line["applied"] = c20Applied
 	data, err := json.Marshal(root)
 	if err != nil {
 		panic("harness: c20 render: " + err.Error())
